@@ -887,7 +887,7 @@ def enum_sdres(tier, seed):
 LEGS = [
     Leg("machine", run=run_machine,
         gen=lambda tier: machine_case(40 if tier == "quick" else 60),
-        quick=320, thorough=10000, shards_quick=8, shards_thorough=16,
+        quick=1600, thorough=20000, shards_quick=12, shards_thorough=16,
         nt_floor=0.3,
         rule="two controllers, Link MIU 128..2175 per side (small values and "
              "non-multiples of 4 emphasised), aggregation on/off per side; "
